@@ -2,6 +2,8 @@ package main
 
 import (
 	"fmt"
+	"go/token"
+	"go/types"
 	"strings"
 
 	"golang.org/x/tools/go/ssa"
@@ -33,8 +35,25 @@ func RuleDelivered(r *Report, p *Program, listener bool) {
 			paths := w.Walk(cfn, symbolicArgs(cfn), nil)
 			bad := ""
 			nOK := 0
+			// the parent's "I have returned" signal (a channel it closes by defer, a context it cancels by defer):
+			// a path of the goroutine that has received it runs after the call is over
+			sentOn := map[string]bool{}
+			doneName := ""
+			if _, ch := doneSignalChan(sf.Fn.Blocks, gt); ch != nil {
+				doneName = freeChanName(ch)
+			}
 			for _, pa := range paths {
+				parentGone := len(pa.Events)
+				for j, pe := range pa.Events {
+					if doneName != "" && pe.Kind == "recv" && len(pe.Args) == 1 && pe.Args[0].String() == doneName {
+						parentGone = j
+						break
+					}
+				}
 				for i, e := range pa.Events {
+					if i > parentGone {
+						break
+					}
 					if !isReadCall(e) || e.Result == nil || len(e.Args) < 2 {
 						continue
 					}
@@ -69,6 +88,12 @@ func RuleDelivered(r *Report, p *Program, listener bool) {
 								hands = true
 							}
 						}
+						if pe.Kind == "send" && len(pe.Args) == 2 && strings.Contains(pe.Args[0].String(), "free:") && !listener {
+							// sent to the parent on a channel both share: handed on if the parent keeps what it receives
+							// from that channel (checked on the parent's paths below)
+							hands = true
+							sentOn[pe.Args[0].String()] = true
+						}
 						if hands {
 							for _, a := range pe.Args {
 								s := a.String()
@@ -77,6 +102,9 @@ func RuleDelivered(r *Report, p *Program, listener bool) {
 								}
 							}
 						}
+					}
+					if next > parentGone {
+						continue // the call had returned before this datagram could be handed over: it came too late
 					}
 					if !delivered {
 						n := pa.State.Ints[res+"#0"]
@@ -90,7 +118,55 @@ func RuleDelivered(r *Report, p *Program, listener bool) {
 					}
 				}
 			}
+			if len(sentOn) > 0 {
+				// the parent's half of a hand-over by channel: every datagram it receives is part of what it returns
+				for _, pa := range sf.Paths {
+					if pa.Outcome != "return" || len(pa.Results) == 0 {
+						continue
+					}
+					res := pa.Results[0].String()
+					if c := cellOfTerm(pa.Results[0]); c != nil && c.Val != nil {
+						res += " " + c.Val.String()
+					}
+					for _, e := range pa.Events {
+						if e.Kind == "recv" && e.Result != nil && e.Result.Typ != nil && isByteSlice(e.Result.Typ) && !strings.Contains(res, e.Result.String()) {
+							bad = fmt.Sprintf("a datagram the call receives from its reader goroutine at %s is not part of the replies it returns (%s)", p.Pos(e.Pos), cut(res, 80))
+						}
+						// while the call waits for the collection window to pass it must be receiving: a wait that is a
+						// sleep (or a bare receive from a timer) leaves the reader blocked in its send once the channel's
+						// buffer is full, and what arrives after that is lost
+						waits := isCall(e, "time.Sleep")
+						if e.Kind == "recv" && len(e.Args) == 1 && (strings.HasPrefix(e.Name, "time.After") || strings.Contains(e.Name, "time.NewTimer")) {
+							waits = true
+							if sel, ok := e.Instr.(*ssa.Select); ok {
+								for _, st := range sel.States {
+									if ch, isCh := st.Chan.Type().Underlying().(*types.Chan); isCh && st.Dir == types.RecvOnly && isByteSlice(ch.Elem()) {
+										waits = false // the wait is one case of a select that also receives the datagrams
+									}
+								}
+							}
+						}
+						if waits {
+							bad = fmt.Sprintf("the reader goroutine hands its datagrams over on a channel, but while the call waits at %s it does not receive from it: once the channel's buffer is full the reader blocks and later replies are lost", p.Pos(e.Pos))
+						}
+					}
+				}
+			}
 			r.Check(bad == "" && nOK >= 1, "RD", sf.Name+":"+calleeName(cfn), p.Pos(cfn.Pos()), fmt.Sprintf("%d paths, %d successful reads examined", len(paths), nOK), bad)
 		}
 	}
+}
+
+// freeChanName: how the walker renders a channel expression of a goroutine body that is a captured variable
+// (or the Done() channel of a captured context).
+func freeChanName(ch ssa.Value) string {
+	if ld, ok := ch.(*ssa.UnOp); ok && ld.Op == token.MUL {
+		if fv, ok := ld.X.(*ssa.FreeVar); ok {
+			return "*free:" + fv.Name()
+		}
+	}
+	if fv, ok := ch.(*ssa.FreeVar); ok {
+		return "free:" + fv.Name()
+	}
+	return ""
 }
